@@ -14,8 +14,34 @@ LEVEL_TEXT = {
     "C16": "Decides the limit constants, the strict-comparison shape and rejecting arm of all 13 enforcement points, that what is measured is the received/serialised text (not bytes, not a re-serialisation) and the must-pass-through of the state-output size test; given len() semantics the boundary clause is the operator and the constant.",
     "C17": "Decides separator-subset-of-forbidden-class and any-position rejection from the validator's regex AST, the mint and split templates at all 5+3 sites (including region/account provenance), NAME provenance at every mint site and create_arn/parse_arn field-order agreement; does not enumerate strings.",
     "C18": "Decides Type-table agreement schema vs engine, that the validator's early return is silent only for null (kind evaluation over 12 JSON kinds), schema bounds on fan-out loop fields, catch-all coverage of deferred callbacks and of notify's prelude, poison-arm executability, attribute-call guarding in the semantic checker and uniqueness bookkeeping order; does not decide validator/engine agreement on all machines.",
+    "C01": "Decides, for every state handler, that the data argument of each path/template stage is def-use-derived from the stage the States Language puts before it (with the spec defaults), the Next/End/Choice/Fail shape, the retry/catch scan that defines 'unhandled error', and lists where success/failure is decided from payload content; does not decide output values for all machines x inputs.",
+    "C04": "Reads 'crash at any instant' as an invariant at every CFG node: broker-owned before the ack, all consequences issued after it (typestate on all handler paths), reply acked after its callback, redelivery guard exactly `not redelivered` on every send/publish/Scheduled entry and not on registrations, correlation id = event id = stamped message id, durable queues/messages, deadline anchors in the context, lazy join state; does not decide equality of outcomes with and without the crash.",
+    "C05": "Decides index-only writes of join results (so arrival order cannot reach the result), the completeness guard, agreement of all pending-slot predicates on the marker set, the MaxConcurrency slice/batch/Range arithmetic and that the batch start is re-read from the event's own context, and fan-out identity; does not decide interleavings or in-flight counts.",
+    "C06": "Decides the unrecoverable error set, sibling agreement of the three reply paths on the termination gate and on 'no history for Task.Terminated', dominance of the termination gate over handler dispatch and history in notify, the cancellation bookkeeping of check_pending_results/cancel_task (key agreement, delete-before-callback, unconditional pending mark); does not decide behaviour under arrival orders.",
+    "C07": "Decides first-match-decides (unconditional break) for retriers and catchers, predicate agreement, back-off formula/defaults/strict attempt test/ms units, catch transfer shape, counter-leak prevention in change_state and the fan-out delegates, and the unrecoverable set; does not decide sequences of task outcomes.",
+    "C08": "Decides full-width reads of the fixed-layout RFC 3339 offset (index sets), decimal parsing of fractional seconds, no handler-manufactured delays, provenance/units/clamping/selection of Wait and Task delays and identity-based execution-timeout arm, timer pairing on every completion path, and the ExecutionTimeout mapping; does not decide instants on a clock.",
+    "C10": "Decides 'no InternalError' by propagating every JSON kind of every request value to every kind-sensitive sink in all 24 handlers (plus unbound names), 'rejected requests leave the store untouched' by a clean/dirty typestate with path facts, front-end agreement action by action, error typing of every lookup/validator, and the update/create/delete/list discipline; does not decide equality with a reference model over call sequences.",
+    "C11": "Decides one-source-of-truth def-use identities in end/start execution and the history writer, notification subject/shape, the save-convert-restore pairing of the dates on every normal path, and that both front ends read the engine's own stores directly; does not decide agreement at every moment across threads/instances/Redis.",
+    "C12": "Decides purity of all read functions by an effect analysis with alias closure, defaults/failure behaviour including a kind evaluation of the constant-returning guard, may-alias of the placed result with the raw input (return-identity summaries), fresh intermediate nodes, tokeniser class vs bracket quoting, and exception discipline of placement; does not decide the algebraic laws over all documents.",
+    "C13": "Decides prefix-guarding of all six dynamic dispatch sites, exception discipline of every may-raise sink in the 19 intrinsics and the tokeniser, hash-seed independence, literal-only str.format, escaping of data-built regexes, the nested-call alternative of the tokeniser (regex AST) and validator/engine agreement on intrinsic names; does not decide values of intrinsics on all arguments.",
+    "C15": "Decides resource-table agreement, dominance of the three refusals over the child launch, correlation identity of sync children, the task-token codec and header agreement end to end, delete-before-callback on all completion paths, constant-folded field renaming over the record's key set, unconditional cancel cascade, and records that SendTask* accepts tokens on format alone; does not decide two-execution interleavings.",
+    "C19": "Decides which publish sites use the shared queue, queue-name construction, the folded consumer address strings for both queue types (parsed as name; JSON) and their agreement across start/start_asyncio, that every option key used is honoured unconditionally down to queue_declare/basic_consume, the identity field mapping in both directions in both bindings, the expiration clamp, absence of shared mutable Message state, the ack mapping and the RPC request fields; does not decide delivery affinity or wire frames.",
+    "C20": "Decides interface agreement of the four store kinds, Redis key-prefix agreement and namespace disjointness, TTL pairing at every record creation, cache bound and who-may-create cache entries (read path only), unconditional write-through and load-failure handling of the JSON store, and the lockset of the cache; does not decide dictionary conformance over histories or behaviour against a real Redis.",
 }
 TECHNIQUE = {
+    "C01": "def-use stage templates over all state handlers with flow-sensitive reaching definitions; Next/End arm shapes; payload-taint listing",
+    "C04": "path-sensitive typestate over handler CFGs + control-dependence of send/publish on the redelivery flag + def-use of correlation ids + constant-folded durability options",
+    "C05": "AST/def-use templates of fan-out and join, dominance of the completeness test, sibling agreement of pending predicates, reaching definitions of the batch start",
+    "C06": "sibling differ over the three reply paths, CFG dominance of the termination gate, key-agreement and dominance checks on cancellation bookkeeping, typestate contract of the gate",
+    "C07": "structural analysis of the two scan loops (break placement, predicate agreement), AST normal form of the back-off expression, dominance of counter deletion over publish",
+    "C08": "index-set computation on constant slices, reaching-definition templates of the delay computation, dominance of timer clearing over callbacks",
+    "C10": "JSON-kind lattice abstract interpretation of every request value, symtable unbound-name pass, clean/dirty typestate with branch facts, sibling differ of the two front ends",
+    "C11": "def-use identity checks, literal shape checks, CFG must-pass-through for save/convert/restore, who-reads-what over the front ends",
+    "C12": "effect analysis with alias closure, kind evaluation of guards, may-alias via return-identity summaries, regex AST, raise/handler discipline",
+    "C13": "reaching-definition check of dispatch keys, may-raise sink coverage, set-iteration-order rule, regex AST of the tokeniser, table agreement with statelint",
+    "C15": "table agreement, CFG dominance, def-use of correlation keys, codec reader/writer agreement, constant folding of the key renaming over the record key set",
+    "C19": "who-publishes-where over resolved call sites, constant folding + JSON parsing of address strings, kwarg-mapping templates in both bindings, sibling agreement",
+    "C20": "class/method table agreement, key-construction templates, CFG must-pass-through (TTL, write-through, eviction), who-may-call on the cache writer, lockset",
     "C09": "who-may-append + dominance on CFG + guard-sensitive string-set enumeration of event types over the call graph vs the log_dict table",
     "C14": "schema-text table vs resolved prefix-dispatch handlers; AST templates per operator family; reaching-definition checks on the marker and parsed instants",
     "C16": "constant folding + enumeration of every comparison against a limit constant, def-use of the measured operand, dominance of the size test over publish",
